@@ -21,9 +21,14 @@ VARIABLES l,      \* cursor
           base,   \* line of the current scenario's reset (carries the configuration)
           d6,     \* monitor, see above
           gated,  \* fake peers whose reads are currently held back by the harness ("gate" action)
-          fanleft \* topics whose fanout set lost a member (stream closed) since the last heartbeat
+          fanleft, \* topics whose fanout set lost a member (stream closed) since the last heartbeat
+          ebo,    \* [<<topic, peer>> -> ms]: backoffs derived from OBSERVED events only (a lower bound of the expiry): a PRUNE
+                  \* the router handled (tracer Prune in a step that received it) with the backoff it carried, a prune of
+                  \* the router's own (heartbeat, Leave). Whatever the implementation's backoff map says, the peer is
+                  \* backed off until then
+          pxlow   \* the pairs of ebo whose PRUNE carried PX records while the sender scored below AcceptPXThreshold
 
-tvars == <<l, base, d6, gated, fanleft>>
+tvars == <<l, base, d6, gated, fanleft, ebo, pxlow>>
 MP == INSTANCE MeshProps
 
 Rng(s) == {s[i] : i \in DOMAIN s}
@@ -80,10 +85,37 @@ Swept(t, p) == /\ Line.hb >= 1 /\ Post.ticks % 15 = 0
                /\ p \in Keys(BoOf(Pre, t)) /\ p \notin Keys(BoOf(Post, t))
                /\ BoOf(Pre, t)[p] + 2000 < Post.now
 
+MinS(S) == CHOOSE x \in S : \A y \in S : x <= y
+EboOf(t) == {x[2] : x \in {y \in DOMAIN ebo : y[1] = t /\ ebo[y] > Post.now}}
+
+\* backoff (ms) a Prune event of this line for <<p, t>> stands for (the shortest that could apply)
+RecvPruneDurs(p, t) ==
+    UNION {{IF Ev(i).rpc.prune[j].backoff > 0 THEN Ev(i).rpc.prune[j].backoff * 1000 ELSE Cfg.pruneBackoffMs
+              : j \in {k \in DOMAIN Ev(i).rpc.prune : Ev(i).rpc.prune[k].topic = t}}
+             : i \in {k \in EvIdx("Recv") : Ev(k).p = p}}
+PruneDur(p, t) ==
+    LET rb == RecvPruneDurs(p, t)
+        own == IF t \in {Ev(i).topic : i \in EvIdx("Leave")} THEN {Cfg.unsubBackoffMs}
+               ELSE IF Line.hb >= 1 \/ rb = {} THEN {Cfg.pruneBackoffMs} ELSE {}
+    IN MinS(rb \cup own)
+EboNext ==
+    LET pe  == EvIdx("Prune")
+        new == {<<Ev(i).topic, Ev(i).p>> : i \in pe}
+        val(x) == MinS({Ev(i).t : i \in {k \in pe : Ev(k).topic = x[1] /\ Ev(k).p = x[2]}}) + PruneDur(x[2], x[1])
+        keep == {x \in DOMAIN ebo : ebo[x] > Post.now}
+    IN [x \in keep \cup new |->
+          IF x \in new THEN (IF x \in keep /\ ebo[x] > val(x) THEN ebo[x] ELSE val(x)) ELSE ebo[x]]
+PxLowNext ==
+    {x \in pxlow : x \in DOMAIN EboNext /\ EboNext[x] > Post.now}
+    \cup {x \in {<<Ev(i).topic, Ev(i).p>> : i \in EvIdx("Prune")} :
+            /\ ScOf(Pre, x[2]) >= 0 /\ ScOf(Pre, x[2]) < Cfg.thr.acceptPX
+            /\ \E i \in {k \in EvIdx("Recv") : Ev(k).p = x[2]} :
+                  \E j \in DOMAIN Ev(i).rpc.prune : Ev(i).rpc.prune[j].topic = x[1] /\ Ev(i).rpc.prune[j].npx > 0}
+
 U == Known(Pre) \cup Known(Post)
 View(t) ==
     LET bo == BoOf(Pre, t)
-        sure == {p \in Keys(bo) : bo[p] > Post.now /\ ~Swept(t, p)}
+        sure == {p \in Keys(bo) : bo[p] > Post.now /\ ~Swept(t, p)} \cup EboOf(t)
     IN [M |-> MeshOf(Pre, t),
         sc |-> [p \in U |-> ScOf(Pre, p)],
         outb |-> {p \in Keys(Pre.outbound) : Pre.outbound[p]},
@@ -162,6 +194,13 @@ HbCov(t) ==
        \* a cut and a later graft step in one heartbeat, the topic's backoff map not existing yet when it started
        \cup (IF "cut" \in ph /\ Mp \ V.M # {} /\ Keys(BoOf(Pre, t)) = {} THEN {Cov("hb-cut-then-add-no-backoff-map", t)} ELSE {})
        \cup (IF "cut" \in ph /\ Mp \ V.M # {} THEN {Cov("hb-cut-then-add", t)} ELSE {})
+       \* under-subscribed while a peer whose PRUNE carried PX it was not entitled to (score below AcceptPXThreshold) is still
+       \* backed off and otherwise a perfect candidate
+       \cup (IF Cardinality(V.M \ MP!Neg(V)) < P.Dlo
+                /\ \E x \in pxlow : x[1] = t /\ x[2] \in EboOf(t) /\ x[2] \in V.cand \ (V.M \cup V.direct) /\ V.sc[x[2]] >= 0
+               THEN {Cov("hb-below-dlo-px-pruner-backed-off", t)} ELSE {})
+       \cup (IF Cardinality(V.M \ MP!Neg(V)) < P.Dlo /\ \E p \in EboOf(t) : p \in V.cand \ (V.M \cup V.direct) /\ V.sc[p] >= 0
+               THEN {Cov("hb-below-dlo-pruner-backed-off", t)} ELSE {})
        \cup (IF P.D = 0 /\ P.Dhi = 0 THEN {Cov("hb-allzero", t)} ELSE {})
        \cup (IF P.Dscore + P.Dout > P.D /\ "cut" \in ph THEN {Cov("hb-cut-unasserted-quality", t)} ELSE {})
        \* the outbound bubble-up of the over-subscription branch matters: Dout >= 2, more outbound members than were kept,
@@ -276,16 +315,18 @@ LineCov ==
 
 PrintAll(tag, S) == \A x \in S : PrintT(<<tag, ToJson(x)>>)
 
-TInit == TLCSet(1, 0) /\ l = 1 /\ base = 1 /\ d6 = {} /\ gated = {} /\ fanleft = {}
+TInit == TLCSet(1, 0) /\ l = 1 /\ base = 1 /\ d6 = {} /\ gated = {} /\ fanleft = {} /\ ebo = <<>> /\ pxlow = {}
 
 TStep ==
     /\ l <= Len(Trace)
     /\ IF Act = "reset"
-         THEN base' = l /\ d6' = {} /\ gated' = {} /\ fanleft' = {}
+         THEN base' = l /\ d6' = {} /\ gated' = {} /\ fanleft' = {} /\ ebo' = <<>> /\ pxlow' = {}
          ELSE /\ base' = base
               /\ gated' = IF Act = "gate" THEN (IF Line.act.on THEN gated \cup {Line.act.p} ELSE gated \ {Line.act.p}) ELSE gated
               /\ d6' = IF Gossip THEN D6Next ELSE d6
               /\ fanleft' = IF Gossip THEN FanLeftNext ELSE {}
+              /\ ebo' = IF Gossip THEN EboNext ELSE <<>>
+              /\ pxlow' = IF Gossip THEN PxLowNext ELSE {}
               /\ PrintAll("VIOL", LineViols)
               /\ PrintAll("COV", LineCov)
     /\ l' = l + 1
